@@ -149,6 +149,9 @@ def build_corpus(tier, rng):
                 dms = [DM("other", "repr(%s)" % req), DM("derive", paths=["Hash"])]
                 it = Item("E", vs if not before else copy.deepcopy(vs), repr=own, dmetas=dms if before else dms[::-1])
                 items.append(("repr-requested", it))
+    # the ENUM is named by a raw identifier: the generated enum is named after the un-rawed name (F15)
+    items.append(("raw-enum-name", Item("r#type", [Variant("A", "tuple", [Field("u8")]), Variant("B", "unit"), Variant("Cc", "named", [Field("i32", "a")])])))
+    items.append(("raw-enum-name", Item("r#match", [Variant("A", "unit"), Variant("B", "unit", discr=4)], repr="u8", dmetas=[DM("derive", paths=["strum::EnumIter", "Hash"])])))
     # non-integer repr hints are copied too: #[repr(C)] (layout observable through size_of / align_of)
     for nv in (1, 3, 5):
         items.append(("repr-c", Item("E", [Variant(names[i], "unit") for i in range(nv)], repr="C")))
